@@ -112,6 +112,8 @@ theorem bechDecodeRaw_error {U : CaseOracle} {k : BechKind} {s : List Char} {e :
   unfold bechDecodeRawFlat at h
   split at h
   · cases h; exact Or.inl rfl
+  split at h
+  · cases h; exact Or.inl rfl
   · cases hr : rfind (s.flatMap U.lower) k.sep with
     | none => rw [hr] at h; cases h; exact Or.inl rfl
     | some p =>
@@ -130,6 +132,8 @@ theorem bechDecodeRaw_data_ne_nil {U : CaseOracle} {k : BechKind} {s hrp : List 
     {data : List Nat} (h : bechDecodeRaw U k s = .ok (hrp, data)) : data ≠ [] := by
   rw [bechDecodeRaw_eq_flat] at h
   unfold bechDecodeRawFlat at h
+  split at h
+  · cases h
   split at h
   · cases h
   · cases hr : rfind (s.flatMap U.lower) k.sep with
